@@ -25,6 +25,11 @@ func prims(s string) map[string]bool {
 
 func config(name string) pmc.Cfg {
 	c := pmc.Cfg{Name: name, MaxView: 2, Alphabet: []string{"A", "B"}, Heights: 1}
+	if strings.HasSuffix(name, "~d") { // "K1~d": storage returns multi-element results in DESCENDING sender order
+		base := config(strings.TrimSuffix(name, "~d"))
+		base.Name, base.Desc = name, true
+		return base
+	}
 	// "K2@v0" = configuration K2 with honest timeouts only below view 0 (i.e. none), "@v1" below view 1, ...
 	if i := strings.Index(name, "@v"); i >= 0 {
 		fmt.Sscanf(name[i+2:], "%d", &c.MaxView)
@@ -152,6 +157,7 @@ func plan(prop, tier string) []run {
 		add("K2@v0e", "M2", 0, 15*time.Second)  // equivocating proposer, eager adversary, no timeouts: exhaustive
 		add("K3b@v0e", "M2", 0, 15*time.Second) // weighted, two Byzantine members: exhaustive
 		add("K1@v1e", "M1", 0, 15*time.Second)  // eager PREPARE/COMMIT, one view change: exhaustive
+		add("K3~d", "M1", 0, 10*time.Second)    // weighted committee, descending storage order
 		add("K2", "M2", 0, 12*time.Second)
 		add("K1", "MALL", 0, 15*time.Second)
 		add("K2", "MALL", 0, 15*time.Second)
